@@ -218,14 +218,14 @@ WalkAgrees(e, t) ==
 (* ============================== design model ==============================
    One action per constructor (taken from the initial state), then Query moves the evaluation time.  TLC enumerates every
    envelope the constructors can build from the constant sets and checks the laws.       *)
-CONSTANTS Levels, Times, Curves, MaxSeg, QTicks
+CONSTANTS Levels, Times, Curves, MaxSeg, MaxPts, QTicks
 \* constant sets for the configurations (cfg files cannot write tuples)
 LevelsQ == {Z, One, <<0 - 1, 2>>}
 TimesQ == {Z, <<3, 8>>, One}
 CurvesQ == {Cv("lin"), Cv("hold"), Num(<<0 - 4, 1>>)}
-LevelsT == {Z, One, <<0 - 1, 2>>, <<3, 8>>}
+LevelsT == {Z, One, <<0 - 1, 2>>}
 TimesT == {Z, <<3, 8>>, One, <<1, 8>>}
-CurvesT == CurvesQ \cup {Cv("step"), Cv("exp"), Cv("sine"), Cv("sqr"), Cv("cubed"), Cv("welch"), Cv("foo")}
+CurvesT == CurvesQ \cup {Cv("step"), Cv("exp"), Cv("sine"), Cv("sqr"), Cv("foo")}
 LevelsD == {Z, One}
 TimesD == {Z, <<3, 8>>, One}
 CurvesD == {Cv("lin"), Cv("hold"), Num(<<0 - 4, 1>>)}
@@ -268,9 +268,9 @@ Dadsr == Fresh /\ \E a \in Times, d \in Times, r \in Times, s \in Levels, b \in 
 Adsr == Fresh /\ \E d \in Times, r \in Times, s \in Levels, b \in {Z, One} :
             Set(C_Adsr(PT, d, s, r, PL, <<PC>>, b), "adsr")
 Asr == Fresh /\ \E r \in Times : Set(C_Asr(PT, PL, r, <<PC>>), "asr")
-Xyc == Fresh /\ \E n \in 1..MaxSeg : \E ts \in [1..n -> Times], ls \in [1..n -> Levels], cs \in [1..n -> Curves] :
+Xyc == Fresh /\ \E n \in 1..MaxPts : \E ts \in [1..n -> Times], ls \in [1..n -> Levels], cs \in [1..n -> Curves] :
            Set(C_Xyc([i \in 1..(n + 1) |-> IF i = 1 THEN <<PT, PL, PC>> ELSE <<ts[i - 1], ls[i - 1], cs[i - 1]>>]), "xyc")
-Pairs == Fresh /\ \E n \in 1..MaxSeg : \E ts \in [1..n -> Times], ls \in [1..n -> Levels] :
+Pairs == Fresh /\ \E n \in 1..MaxPts : \E ts \in [1..n -> Times], ls \in [1..n -> Levels] :
            Set(C_Pairs([i \in 1..(n + 1) |-> IF i = 1 THEN <<PT, PL>> ELSE <<ts[i - 1], ls[i - 1]>>], <<PC>>), "pairs")
 Query == /\ op # "init" /\ ValidCurves(env)
          /\ \E t \in QTicks : tq' = t /\ val' = ValOf(env, t)
